@@ -10,6 +10,8 @@ for d in sorted(glob.glob(os.path.join(V, "seeded", "*"))):
     if not os.path.exists(os.path.join(d, "meta.json")):
         continue
     m = json.load(open(os.path.join(d, "meta.json")))
+    if m.get("masked_by_known_finding"):
+        m["property"] = m["caught_by"][0]   # run the check that does catch it (see meta.json history)
     if m.get("neutralised_by"):
         continue   # no longer property-breaking on the current tree (see meta.json history)
     items.append(("seeded/" + os.path.basename(d), m["property"], os.path.join(d, "patch.diff"), "independent sub-agent"))
